@@ -1,9 +1,10 @@
 #!/usr/bin/env python3
-# usage: saveseed.py <ID> <seed-out-dir> <dest-name> <status> <note>
+# usage: saveseed.py <ID> <seed-out-dir> <dest-name> <status> <note> [logs-name]
 # Copies a verified seed (patch.diff, demo/, meta.json) to /verif/seeded/<dest-name>/ and records the check result
 # taken from the last seedcheck.sh run (/verif/seeded/<ID>.logs/check.log).
 import sys, json, os, shutil, re
 pid, src, dest, status, note = sys.argv[1:6]
+logs = sys.argv[6] if len(sys.argv) > 6 else pid
 d = os.path.join('/verif/seeded', dest)
 if os.path.exists(d):
     shutil.rmtree(d)
@@ -12,7 +13,7 @@ shutil.copy(os.path.join(src, 'patch.diff'), d)
 if os.path.isdir(os.path.join(src, 'demo')):
     shutil.copytree(os.path.join(src, 'demo'), os.path.join(d, 'demo'))
 meta = json.load(open(os.path.join(src, 'meta.json')))
-log = open(f'/verif/seeded/{pid}.logs/check.log').read()
+log = open(f'/verif/seeded/{logs}.logs/check.log').read()
 sigs = sorted(set(re.findall(r'signature: (\S.*)', log)))
 tier = re.search(r'^%s tier=.*$' % pid, log, re.M)
 meta['check_result'] = {'status': status, 'signatures': ', '.join(sigs), 'note': note,
